@@ -129,7 +129,7 @@ def m1_local(led, rid, ctx):
 
 def m2(led, rid, ctx):
     lib = ctx.lib
-    f = lib.method("ConstraintSatisfactionSolver", "solve_internal")
+    f = __import__("lint.props.shared", fromlist=["x"]).solve_internal(lib)
     polls = f.calls_named("should_stop")
     led.check(len(polls) >= 1, rid, "poll-exists", f.span, "%d poll(s) of the termination condition"
               % len(polls), "solve_internal never polls the termination condition")
